@@ -34,5 +34,9 @@ def replay(path: str) -> int:
     import json
 
     p = json.load(open(path))
+    if p.get("kind") == "c-rw" and "struct_a" in p:
+        from . import crw
+
+        return crw.replay(p)
     print(json.dumps({k: p[k] for k in ("pair", "rewrites", "native_a", "native_b") if k in p}, indent=1)[:800])
     return 1
